@@ -18,6 +18,7 @@ import (
 	"github.com/plgd-dev/go-coap/v3/message/pool"
 	coapNet "github.com/plgd-dev/go-coap/v3/net"
 	"github.com/plgd-dev/go-coap/v3/net/responsewriter"
+	"github.com/plgd-dev/go-coap/v3/options/config"
 	"github.com/plgd-dev/go-coap/v3/udp/client"
 	"github.com/plgd-dev/go-coap/v3/udp/coder"
 )
@@ -212,6 +213,8 @@ type memConnOpts struct {
 	limitEndpoint int64
 	maxMsg        uint32
 	opts          []client.Option
+	// optional: Config.ProcessReceivedMessage (nil = the connection's default)
+	processReceived config.ProcessReceivedMessageFunc[*client.Conn]
 }
 
 func newMemConn(o memConnOpts) *memConn {
@@ -246,6 +249,9 @@ func newMemConn(o memConnOpts) *memConn {
 	cfg.LimitClientParallelRequests = o.limitTotal
 	cfg.LimitClientEndpointParallelRequests = o.limitEndpoint
 	cfg.MaxMessageSize = o.maxMsg
+	if o.processReceived != nil {
+		cfg.ProcessReceivedMessage = o.processReceived
+	}
 	cfg.Handler = func(w *responsewriter.ResponseWriter[*client.Conn], r *pool.Message) {
 		if string(r.Token()) == string(mc.barTok) {
 			mc.barrier <- struct{}{}
